@@ -270,7 +270,21 @@ func judge(ops []Op, outs []Out) (string, string) {
 	type tk struct{ pos, build int }
 	var toks []tk
 	build, shrunk, oi := 0, false, 0
+	// lastKind/lastLen: the last operation of the current build and, for a format with a non-empty
+	// string and at least one formatter, the byte length of its piece. They decide independently of
+	// the implementation WHEN Complete must trim: a build that ends in such a format returns the text
+	// with the trailing white space of that piece removed; a build that ends in plain returns all of it.
+	lastKind, lastLen := "", 0
 	for _, o := range ops {
+		if o.K != "complete" && o.K != "raw" {
+			lastKind, lastLen = o.K, 0
+			if o.K == "format" && len(o.Tags) > 0 {
+				lastLen = len(unhex(o.S))
+			}
+			if o.K == "format" && (len(o.Tags) == 0 || len(unhex(o.S)) == 0) {
+				lastKind = "other" // Format("") does nothing, Format(s) without formatters only resets the index
+			}
+		}
 		switch o.K {
 		case "plain", "write":
 			P = append(P, unhex(o.S)...)
@@ -316,6 +330,18 @@ func judge(ops []Op, outs []Out) (string, string) {
 						return "trim-nonspace", fmt.Sprintf("Complete removed non-space %q", P[len(T):])
 					}
 				}
+				switch lastKind {
+				case "format":
+					piece := string(P[len(P)-lastLen:])
+					want := len(P) - lastLen + len(strings.TrimRightFunc(piece, unicode.IsSpace))
+					if len(T) != want {
+						return "trailing-space-not-trimmed", fmt.Sprintf("the build ends in a formatted piece %q: Complete must cut exactly its trailing white space (text of %d bytes expected), got %q (%d bytes)", piece, want, T, len(T))
+					}
+				case "plain":
+					if len(T) != len(P) {
+						return "plain-tail-trimmed", fmt.Sprintf("the build ends in plain text but Complete returned %q for %q", T, P)
+					}
+				}
 				total := u16(T)
 				seen := map[int]bool{}
 				for _, e := range out.Ents {
@@ -339,6 +365,7 @@ func judge(ops []Op, outs []Out) (string, string) {
 				}
 			}
 			P, pieces, shrunk = nil, map[int]piece{}, false
+			lastKind, lastLen = "", 0
 			build++
 		}
 	}
@@ -348,8 +375,8 @@ func judge(ops []Op, outs []Out) (string, string) {
 // ---- generators ----
 var spaceRunes = []rune{'\t', '\n', '\v', '\f', '\r', ' ', 0x85, 0xA0, 0x1680, 0x2000, 0x2001, 0x2002, 0x2003, 0x2004, 0x2005,
 	0x2006, 0x2007, 0x2008, 0x2009, 0x200a, 0x2028, 0x2029, 0x202f, 0x205f, 0x3000}
-var bmp = []rune{0xE9, 0x416, 0x4E2D, 0xFFFD, 0x7F, 0x80, 0x7FF, 0x800, 0xFFFF, 0xD7FF, 0xE000, 0x200B, 0x180E, 0x84, 0x86, 0x9F, 0xA1, 0x2010, 0x202E, 0x2060, 0x3001}
-var astral = []rune{0x1F600, 0x1F3F3, 0x10000, 0x10FFFF, 0x1F468, 0x2F800}
+var bmp = []rune{0xE9, 0x416, 0x4E2D, 0xFFFD, 0x7F, 0x80, 0x7FF, 0x800, 0xFFFF, 0xFFFE, 0xFFFF, 0xD7FF, 0xE000, 0xFFFC, 0x200B, 0x180E, 0x84, 0x86, 0x9F, 0xA1, 0x2010, 0x202E, 0x2060, 0x3001}
+var astral = []rune{0x1F600, 0x1F3F3, 0x10000, 0x10001, 0x10000, 0x10FFFF, 0x1F468, 0x2F800}
 var combining = []rune{0x301, 0xFE0F, 0x200D, 0x20E3, 0x1F3FB}
 
 func genRune(r *hx.Rand) rune {
